@@ -42,6 +42,19 @@ Proof. intros c T nS s x t Hc Hl Hs. eapply chain_total; eauto.
   apply (loop_walk gen_failed_one gen_failed_one_spec c T s x t Hs). Qed.
 Print Assumptions C10_path.
 
+(* deterministic half: every differentiable solution of the assembled ODE of a transition-only model (rates may
+   depend on the state in any way) keeps the sum of the states constant for all times *)
+From Coq Require Import Reals.
+From Coquelicot Require Import Coquelicot.
+From PV Require Import Flow.
+Theorem C10_flow : forall n (m : (nat -> R) -> model R) (x : nat -> R -> R),
+  (forall y, closed R n (events (m y)) /\ odes (m y) = []) ->
+  (forall i t, (i < n)%nat ->
+     is_derive (x i) t (ode_vec R 0%R 1%R Rplus Rmult Rminus Ropp (m (fun j => x j t)) i)) ->
+  forall t0 t, lsum (map (fun i => x i t) (seq 0 n)) = lsum (map (fun i => x i t0) (seq 0 n)).
+Proof. exact closed_model_total_constant. Qed.
+Print Assumptions C10_flow.
+
 (* non-vacuity: the SIR model (S->I, I->R) over Z is closed with 3 states *)
 From Coq Require Import ZArith.
 Example sir_closed :
